@@ -294,4 +294,8 @@ PROPS = {
             "covers": "K3' mpmc::bounded sync paths, all schedules: queue_len = ring length <= cap in every reachable state; Full only from a section in which the ring held exactly cap values"},
     "C04": {"engines": [ENGINE], "assumptions": _ASSUME, "engine_info": _INFO,
             "covers": "K3' mpmc::bounded sync paths, all schedules: sender/receiver counts = live handles for any thread count; Disconnected only from a section with empty ring and sender_count = 0 (F-08 repair; refuted by vm_compute witness with the re-drain switched off) and that state is final"},
+    "C05": {"engines": [ENGINE], "assumptions": _ASSUME, "engine_info": _INFO,
+            "covers": "K3' mpmc::bounded sync paths, any number of threads, all schedules: no lost wakeup (quiescent => a parked receiver sees an empty ring and a live sender, a parked sender a full ring and a live receiver), hence deadlock freedom incl. after the other side is gone; wake accounting invariant (buffered values <= signalled receivers owing a poll, free slots <= signalled senders owing a retry); a signalled waiter that loses the item re-arms (F-02 repair; refuted by vm_compute witness without it) (partial: no fairness/eventually)"},
+    "C09": {"engines": [ENGINE], "assumptions": _ASSUME, "engine_info": _INFO,
+            "covers": "K3' mpmc::bounded sync paths, all schedules: a waiter-queue entry is always the current done_flag of a thread whose frame is alive (the wake CAS never touches a finished frame: bad = false), nobody linked twice; no unreachable!() (refuted without the F-02 repair)"},
 }
